@@ -16,7 +16,14 @@ def main(argv=None):
     ap.add_argument("--workers", type=int, default=None)
     ap.add_argument("--only", default=None, help="restrict to type labels containing this text (debug)")
     args = ap.parse_args(argv)
-    os.environ.setdefault("PYTHONHASHSEED", "0")
+    if os.environ.get("VF_HASHSEED_PINNED") != "1":
+        # str hashes are fixed at interpreter start: re-exec once with PYTHONHASHSEED derived from VERIF_SEED
+        try:
+            hs = str(int(os.environ.get("VERIF_SEED", "0")) % 4294967296)
+        except ValueError:
+            hs = "0"
+        env = dict(os.environ, PYTHONHASHSEED=hs, VF_HASHSEED_PINNED="1")
+        os.execve(sys.executable, [sys.executable, "-m", "vf.run"] + list(argv if argv is not None else sys.argv[1:]), env)
     if args.workers:
         os.environ["VERIF_WORKERS"] = str(args.workers)
     if args.only:
